@@ -16,6 +16,7 @@ import (
 	"net/http"
 	"net/http/httptest"
 	"regexp"
+	"runtime/debug"
 	"strings"
 	"sync"
 	"sync/atomic"
@@ -36,7 +37,8 @@ type c17Session struct {
 }
 
 type c17Result struct {
-	status int
+	panicked string
+	status   int
 	hdr    http.Header
 	raw    []byte
 	rerr   error
@@ -51,6 +53,7 @@ type c17Env struct {
 	// while the first inner handler is still held before its return - the server would not read it.
 	clientNoKA *http.Client
 	sessions sync.Map
+	panics   sync.Map // session id -> panic value and stack of the handler under test
 	seq      int64
 	plumbing int64
 }
@@ -97,13 +100,19 @@ func (e *c17Env) request(s *c17Session, id string) c17Result {
 	if s.lockstep {
 		cl = e.clientNoKA
 	}
+	pan := func() string {
+		if v, ok := e.panics.LoadAndDelete(id); ok {
+			return v.(string)
+		}
+		return ""
+	}
 	resp, err := cl.Do(req)
 	if err != nil {
-		return c17Result{err: err}
+		return c17Result{err: err, panicked: pan()}
 	}
 	raw, rerr := io.ReadAll(resp.Body)
 	resp.Body.Close()
-	return c17Result{status: resp.StatusCode, hdr: resp.Header, raw: raw, rerr: rerr}
+	return c17Result{status: resp.StatusCode, hdr: resp.Header, raw: raw, rerr: rerr, panicked: pan()}
 }
 
 // run executes one behaviour; it returns the results per handler index (nil = not started).
@@ -213,7 +222,18 @@ func (e *c17Env) run(b *verifx.C17Beh, n int64, big bool) ([]*verifx.C17Plan, []
 
 func TestVerifC17(t *testing.T) {
 	env := &c17Env{}
-	env.srv = httptest.NewUnstartedServer(NewGzipHandler(http.HandlerFunc(env.inner), regexp.MustCompile(verifx.C17ContentTypes)))
+	under := NewGzipHandler(http.HandlerFunc(env.inner), regexp.MustCompile(verifx.C17ContentTypes))
+	// a panic of the handler under test (the scripted inner handler cannot panic) is recorded for the
+	// session, so that "the connection was cut" is attributed to the real code and not to the harness
+	env.srv = httptest.NewUnstartedServer(http.HandlerFunc(func(w http.ResponseWriter, r *http.Request) {
+		defer func() {
+			if p := recover(); p != nil {
+				env.panics.Store(r.Header.Get("X-C17-Session"), fmt.Sprintf("%v\n%s", p, debug.Stack()))
+				panic(http.ErrAbortHandler)
+			}
+		}()
+		under.ServeHTTP(w, r)
+	}))
 	env.srv.Config.ErrorLog = log.New(io.Discard, "", 0) // "superfluous WriteHeader" notes of net/http
 	env.srv.Start()
 	defer env.srv.Close()
@@ -264,6 +284,12 @@ func TestVerifC17(t *testing.T) {
 						}
 					}
 					r := res[i]
+					if r.panicked != "" {
+						bb := b
+						bb.N, bb.Via = n, "gzip"
+						verifx.Fail(bb, p.Features("gzip", "handler-panic"), "handler %d of %d: the gzip handler panicked: %s\n  %s", i+1, len(plans), r.panicked, p.Describe())
+						continue
+					}
 					if r.err != nil {
 						env.oracle("handler %d: request failed before a response arrived: %v (%s)", i+1, r.err, p.Describe())
 						continue
